@@ -214,7 +214,7 @@ func (r *runner) onClient(point string, args []any) {
 		return
 	}
 	switch point {
-	case "cm.enq.pre":
+	case "cm.enq.pre", "cl.enq.pre":
 		n, capa := args[0].(int), args[1].(int)
 		if n < capa {
 			return
@@ -235,7 +235,7 @@ func (r *runner) onClient(point string, args []any) {
 				return
 			}
 		}
-	case "cm.enq":
+	case "cm.enq", "cl.enq":
 		r.ctl.WaitParked()
 	case "cl.signal.pre":
 		// Close hands over on an unbuffered channel: finish the current cycle, then let the
